@@ -406,6 +406,18 @@ pub fn build_tree(r: &RawTree, root_abs: &Path) -> Tree {
     Tree { files, flat: flat2, messages, shape, caller_dirs, missing_name, main_symlink: r.main_symlink }
 }
 
+/// The main file is named by its absolute path or — trees with an even number of files — relative to
+/// the working directory (a function of the tree, so that a replay file reproduces it).
+pub fn main_path_for(root: &Path, n_files: usize) -> PathBuf {
+    let main_abs = root.join("main/main.asm");
+    if n_files % 2 == 0 {
+        if let Some(rel) = std::env::current_dir().ok().and_then(|cwd| main_abs.strip_prefix(&cwd).ok().map(|p| p.to_path_buf())) {
+            return rel;
+        }
+    }
+    main_abs
+}
+
 pub fn write_tree(t: &Tree, root: &Path) -> std::io::Result<()> {
     for d in ["main", "cd0", "cd1"] {
         std::fs::create_dir_all(root.join(d))?;
@@ -513,7 +525,7 @@ pub fn replay(v: &Value) -> Option<Result<(), String>> {
     let mut paths = BTreeSet::new();
     paths.insert(root.join("cd0"));
     paths.insert(root.join("cd1"));
-    let tree_out = build_file(root.join("main/main.asm"), paths);
+    let tree_out = build_file(main_path_for(&root, files.len()), paths);
     let res = if let Some(m) = v.get("missing").and_then(|m| m.as_str()) {
         match &tree_out {
             Outcome::Err(e) if e.contains(m) => Ok(()),
@@ -542,7 +554,11 @@ pub fn test(r: &RawTree, ev: &mut Ev, opts: &ModelOpts, tag: &str) -> Result<(),
     for d in &t.caller_dirs {
         paths.insert(d.clone());
     }
-    let tree_out = build_file(root.join("main/main.asm"), paths);
+    let main_path = main_path_for(&root, t.files.len());
+    if main_path.is_relative() {
+        ev.class("main-file-given-by-a-relative-path");
+    }
+    let tree_out = build_file(main_path, paths);
     let flat_text = render(&t.flat, Style::CANON).text;
     let s = &t.shape;
     for p in &s.placements {
